@@ -5,6 +5,7 @@ import ast
 from ..index import unparse, iter_own_nodes, AnalysisError
 from ..cfg import calls_in_node
 from ..framework import stores_to_name, assigned_values
+from .. import exprs as X
 from . import common
 
 EXPLANATION = (
@@ -136,7 +137,26 @@ def rule_args(chk):
         # they are the start fields
         st = ctx.func("_action", "Action._start")
         scs = [c for n in cfg.live for c, m in calls_in_node(n) if st in ctx.targets(w, c)]
-        if not scs or not all(len(c.args) == 1 and isinstance(c.args[0], ast.Name) and c.args[0].id == cav for c in scs):
+        inc_ = lc.params[2] if len(lc.params) > 2 else "include_args"
+        is_inc = lambda x: isinstance(x, ast.Name) and x.id == inc_
+
+        def derived(nm):
+            """nm is a second name for the (possibly restricted) bound arguments: every binding of it is `<cav>` where include_args
+            is None, or `{k: <cav>[k] for k in include_args}` where it is not"""
+            asg = [y for y in cfg.live if isinstance(y.ast, ast.Assign) and any(isinstance(t, ast.Name) and t.id == nm for t in y.ast.targets)]
+            if not asg:
+                return False
+            for y in asg:
+                v = y.ast.value
+                br = {X.none_branch(t.exprs[0], lab, is_inc) for t, lab in cfg.guards_of(y) if t.kind == "test"} - {None}
+                if isinstance(v, ast.Name) and v.id == cav and br == {"none"}:
+                    continue
+                if isinstance(v, ast.DictComp) and len(v.generators) == 1 and is_inc(v.generators[0].iter) and not v.generators[0].ifs and isinstance(v.key, ast.Name) \
+                        and unparse(v.value) == "%s[%s]" % (cav, v.key.id) and br == {"notnone"}:
+                    continue
+                return False
+            return True
+        if not scs or not all(len(c.args) == 1 and isinstance(c.args[0], ast.Name) and (c.args[0].id == cav or derived(c.args[0].id)) for c in scs):
             sa = ctx.func("_action", "start_action")
             alt = [c for n in cfg.live for c, m in calls_in_node(n) if sa in ctx.targets(w, c)]
             if not alt:
@@ -145,7 +165,6 @@ def rule_args(chk):
             good="start fields = getcallargs(f, *args, **kwargs) minus self, restricted to include_args", fail="; ".join(problems))
     # the whitelist used by the wrapper is the one given to log_call
     inc_name = "include_args"
-    from .. import exprs as X
     for fn_ in (lc, w):
         fcfg = ctx.cfg(fn_)
         asg = [n for n in fcfg.live if isinstance(n.ast, ast.Assign) and any(isinstance(t_, ast.Name) and t_.id == inc_name for t_ in n.ast.targets)]
@@ -212,7 +231,10 @@ def rule_result(chk, resvars):
         if not (set(k) == {"result"} and isinstance(k["result"], ast.Name) and k["result"].id in resvars):
             problems.append("success fields are %s, not result=<the result>" % unparse(c))
         g = [(t, lab) for t, lab in cfg.guards_of(n) if t.kind == "test"]
-        if not any(isinstance(t.exprs[0], ast.Name) and t.exprs[0].id == inc and lab == "true" for t, lab in g) or len(g) != 1:
+        def on_true(t, lab):
+            e, lab2 = X.strip_not(t.exprs[0], lab)
+            return isinstance(e, ast.Name) and e.id == inc and lab2 == "true"
+        if not any(on_true(t, lab) for t, lab in g) or len(g) != 1:
             problems.append("the result is not logged exactly when include_result is true (guards: %s)" % [unparse(t.exprs[0]) for t, lab in g])
         fnodes = [nn for nn, cc, m in [(a, b, "x") for a in cfg.live for b, _m in calls_in_node(a) if isinstance(b.func, ast.Name) and b.func.id == lc.params[0]]]
         if fnodes and not cfg.precedes(fnodes, [n])[0]:
